@@ -12,10 +12,18 @@ LAYOUT = [{"a": 0, "kind": "word", "port": "o_w0"}, {"a": 4, "kind": "word", "po
 ADDRS_M = [0x00, 0x10, 0x14, 0x18, 0x1C, 0x04, 0x0C]
 LAYOUT_M = [{"a": 0x00, "kind": "word", "port": "o_w0"}, {"a": 0x10, "kind": "memword", "port": ""}, {"a": 0x14, "kind": "memword", "port": ""},
             {"a": 0x18, "kind": "memword", "port": ""}, {"a": 0x1C, "kind": "word", "port": "o_w7"}]
-WRAPPERS = [("AxiW", ADDRS, LAYOUT), ("AxiM", ADDRS_M, LAYOUT_M)]
+# third wrapper: a register with read / write notification counters, a register array, a nested register file, an Input and an
+# Output register; 0x04, 0x18 and 0x28 are unmapped
+ADDRS_N = [0x00, 0x10, 0x14, 0x20, 0x24, 0x30, 0x34, 0x04, 0x18, 0x28]
+LAYOUT_N = [{"a": 0x00, "kind": "cnt", "port": "o_data", "rdport": "o_rd", "wrport": "o_wr"},
+            {"a": 0x10, "kind": "word", "port": "o_a0"}, {"a": 0x14, "kind": "word", "port": "o_a1"},
+            {"a": 0x20, "kind": "word", "port": "o_ia"}, {"a": 0x24, "kind": "word", "port": "o_ib"},
+            {"a": 0x30, "kind": "input", "port": ""}, {"a": 0x34, "kind": "output", "port": "o_out"}]
+INVAL_N = [0xC0, 0xFF, 0xEE, 0x5A]
+WRAPPERS = [("AxiW", ADDRS, LAYOUT), ("AxiM", ADDRS_M, LAYOUT_M), ("AxiN", ADDRS_N, LAYOUT_N)]
 
 
-def traces(tier, rng, naddr=4, n=None):
+def traces(tier, rng, naddr=4, n=None, rest=False):
     """per-clock master intents under several timing profiles"""
     out = []
     n = n or (160 if tier == "quick" else 3000)
@@ -67,6 +75,9 @@ def traces(tier, rng, naddr=4, n=None):
                         it[k] = rng.randint(1, hi)
                 it["b"] = int(rng.random() < 0.5)
                 it["r"] = int(rng.random() < 0.5)
+            if rest and (i % 20) >= 11:
+                # the bus comes to rest: nothing new is issued, responses are accepted (notification counters are judged at rest)
+                it = {"aw": 0, "w": 0, "b": 1, "ar": 0, "r": 1}
             tr.append(it)
         out.append(tr)
     return out
@@ -90,9 +101,11 @@ def run(tier):
             if ob["reader"] != "ok":
                 V.machinery_error(f"reader: {ob['reader']} {ob.get('reader_msg')}")
                 continue
-            trs = traces(tier, rng, naddr=len(addrs), n=(90 if tier == "quick" else 1500))
+            trs = traces(tier, rng, naddr=len(addrs), n=(90 if tier == "quick" else 1500), rest=(wname == "AxiN"))
             trs_all += trs
             base = {"design": {"ast": ob["ast"], "top": wname.lower()}, "addrs": addrs, "beats": BEATS, "layout": layout}
+            if wname == "AxiN":
+                base["inval"] = INVAL_N
             for sh in vlib.shard(trs, vlib.NCPU // 2):
                 shards.append(dict(base, traces=sh))
                 meta.append((wname, ob["vhdl"]))
@@ -111,8 +124,10 @@ def run(tier):
     cov = {"states": steps, "transitions": steps, "traces_validated_against_impl": len(trs), "evaluations": steps,
            "distinct_nontrivial": len(trs), "samples": [t[:6] for t in trs[:2]],
            "layouts": {w[0]: w[2] for w in WRAPPERS}, "addresses": {w[0]: w[1] for w in WRAPPERS}, "beats": len(BEATS), "exhaustive": False,
-           "rule": "two register maps behind std.axi.axi4_light (A: two MemWords, one register with a stored upper field and a hardware-driven "
-                   "lower field, one unmapped address; B: a MemWord, a 3-word Memory directly followed by a MemWord, unmapped gaps); seeded random master intent traces under 8 timing profiles (same-clock address+data, "
+           "rule": "three register maps behind std.axi.axi4_light (A: two MemWords, one register with a stored upper field and a hardware-driven "
+                   "lower field, one unmapped address; B: a MemWord, a 3-word Memory directly followed by a MemWord, unmapped gaps; C: a register "
+                   "with read / write notification counters, a register array, a nested register file, an Input and an Output register, the bus "
+                   "coming to rest periodically so that the counters are judged against the number of completed accesses); seeded random master intent traces under 8 timing profiles (same-clock address+data, "
                    "address first, data first, slow response side, same-address read/write interleaving, unmapped addresses, all random); the "
                    "master holds every valid until ready; the emitted VHDL is run against the channel monitor of AxiLite.tla at every clock"}
     rc = V.finish()
